@@ -1,0 +1,21 @@
+//go:build verif
+
+package netutil
+
+// VerifHook is a verification-only instrumentation point (build tag "verif").
+// When set, IPv4Filter calls it inside its critical sections (while the lock is held).
+var VerifHook func(f *IPv4Filter, ev string)
+
+func vhook(f *IPv4Filter, ev string) {
+	if h := VerifHook; h != nil {
+		h(f, ev)
+	}
+}
+
+// VerifState reports (maps mode?, list slots used, match-all flag) for coverage accounting.
+// It takes the read lock itself.
+func (f *IPv4Filter) VerifState() (maps bool, index int, matchAll bool) {
+	f.mutex.RLock()
+	defer f.mutex.RUnlock()
+	return f.mode == modeMaps, f.index, f.matchAll.Load()
+}
